@@ -15,8 +15,8 @@ LEVEL = {
     "C06": "Deductive proof (Verus), narrow: the attested credential key is the public COSE encoding and the stored key the private COSE encoding of the same fresh secret (key routing). Non-interference over all serialisations is not a contract and is not covered.",
     "C07": "Deductive proof (Verus) that every error path of make_credential / get_assertion leaves the store view unchanged (or changed only by the selected credential's counter), store errors are propagated, success implies the store accepted the write; each store call may fail with any status. Cancellation is covered only by a structural check of the text.",
     "C08": "Deductive proof (Verus): registration reports Some(0)/None as configured, an assertion reports exactly stored+1 below 2^32-1, never a smaller value at 2^32-1, no arithmetic overflow, and a credential without counter is not rewritten.",
-    "C09": "Deductive proof (Verus) of the authenticator-side PRF / hmac-secret functions and the client-side length validation. Partial: salt prefix and per-credential selection are assumed.",
-    "C10": "Deductive proof (Verus) of the generic public-suffix table walk for every string and every well-formed table, plus a verified table checker compiled and run on the real table. Partial: agreement with public_suffix_list.dat is not covered.",
+    "C09": "Deductive proof (Verus) of the real calculate_hmac_secret, make_hmac_secret, make_prf, get_prf, make_extensions, get_extensions and of both ceremonies: every PRF output is HMAC-SHA-256 (uninterpreted) keyed with the verification-gated secret iff the user was verified (performed UV at assertion, requested-and-checked UV at registration), enabled iff secrets were stored, nothing stored or output without the capability; client-side: pre-hashed inputs must be 32 bytes, per-credential inputs rejected at registration. The salt prefix is checked by a bounded Kani harness on the real source file. Partial: select_salts and the client's get_ctap_extension are assumed / not covered.",
+    "C10": "Deductive proof (Verus), for every string and every well-formed sorted table: no lookup panics, public_suffix computes the publicsuffix.org rule walk over the table's trie (normal / wildcard / exception rules, fallback *), the binary search finds a label iff a sibling has it, results are label-aligned suffixes, eTLD+1 has exactly one more label, empty labels are rejected; well-formedness and sortedness of the shipped table are established by a verified checker compiled and run on the real constants. Partial: that the table encodes exactly the rules of public_suffix_list.dat is not covered.",
     "C11": "Deductive proof (Verus): is_passkey_discoverable equals the capability table, get_info reports rk truthfully, make_credential stores the user handle exactly when discoverable and refuses rk on a non-discoverable-only store, get_assertion returns a user handle exactly when the credential stores one.",
     "C12": "Complete Kani harnesses (all u8) for flag validity plus Verus proof of the constructor / setters. Partial: decoding is not decidable here.",
     "C13": "Status-byte clauses only: complete loop-free Kani harnesses over all 256 bytes, and Verus proof of the client's status mapping. CBOR clauses are not decidable.",
